@@ -3,6 +3,7 @@ Model: lean/EaselModel/Buffer/*, theorems: Props/C05.lean, driver: Driver/C05.le
 from vlib.engine import Prop, Failure
 
 MODES = ["string", "stream", "pipe", "file", "allfile", "mmap"]
+VARIANTS = ["cstring", "pipe0"]   # OpenMem(p, -1) on a NUL-free input; OpenPipe(NULL, complete command)
 NATURAL = ["auto", "open"]     # esl_buffer_OpenFile / esl_buffer_Open without forcing: mode chosen from the file size (slurped here)
 PAGES = [1, 2, 3, 4, 5, 7, 8, 16, 64, 512, 4096]
 K_STABLE = "C05:stable-anchor:realloc-in-refill"
@@ -49,13 +50,17 @@ class Spec:
         return o <= self.cur and (o == self.cur or (self.anchor is not None and o >= self.anchor))
 
     def setoffset_ok(self, o):
-        return o < len(self.src) and (o >= self.cur or (self.anchor is not None and o >= self.anchor))
+        # a byte of the input; or, while an anchor is set, also the position just after the last byte (legal since 70e58ff)
+        inrange = o < len(self.src) or (o == len(self.src) and self.anchor is not None)
+        return inrange and (o >= self.cur or (self.anchor is not None and o >= self.anchor))
 
     def apply(self, op):
         """returns dict(st=, bytes=, n=, off=, kind=) expected for a valid op, or None if the op is outside the contract"""
         w = op.split()
         kv = dict(x.split("=", 1) for x in w[1:] if "=" in x)
         name = w[0]
+        null = name.endswith("0")          # the call with NULL result pointers: same effect, nothing handed out
+        if null: name = name[:-1]
         lastp, self.lastp = self.lastp, None
         r = None
         if name in ("getline", "fetchline", "fetchlinestr"):
@@ -103,7 +108,18 @@ class Spec:
         else:
             return None
         r["off"] = self.cur
+        if null:
+            r["bytes"], r["n"], r["z"] = b"", 0, False
+            self.lastp = None
         return r
+
+
+def case_cfg(open_line):
+    """(src, page size in force, lower bound of the page size, mode) of a case's `open` line"""
+    kv = dict(x.split("=", 1) for x in open_line.split()[1:] if "=" in x)
+    src = (bytes.fromhex(kv["hex"]) if kv["hex"] != "-" else b"") * int(kv.get("rep", "1"))
+    ps = int(kv["ps"])
+    return src, (ps if ps > 0 else 4096), (ps if ps > 0 else 512), kv["mode"]
 
 
 def parse_out(l):
@@ -123,19 +139,22 @@ class C05(Prop):
     theorems = ["EaselModel.Props.C05." + t for t in (
         "open_wf", "refill_wf", "refill_guarantee", "getLine_refines", "fetchLine_refines", "read_refines",
         "getToken_refines", "fetchToken_refines", "lines_partition", "getLine_keeps_anchor", "countline_pagesize_independent",
-        "history_spec", "history_mode_independent", "history_no_fault", "reread_under_anchor", "step_simulates", "get_prefix",
+        "history_spec", "history_mode_independent", "history_no_fault", "reread_under_anchor", "step_simulates", "get_prefix", "readLines_eq_specLines", "get_all_in_memory", "stable_ptr_valid_quiet", "open_quiet",
         "stable_ptr_valid_partial", "stable_ptr_valid_fails_at")]
     claimed = True
     level_text = ("Theorems (no bound on input, page size >= 1, or history length): every opener yields a well-formed window; buffer_refill preserves it and restores the page guarantee; "
                   "GetLine/FetchLine/FetchLineAsStr, GetToken/FetchToken/FetchTokenAsStr, Read each refine the abstract 'bytes + cursor' specification; "
                   "history_spec: for all 6 modes and every history of the 14 operations within the API contract, the (status, bytes, offset) sequence of the model equals the specification's; "
-                  "history_mode_independent; history_no_fault (no out-of-bounds access, only OK/EOF/EOL); lines + terminators partition the input; re-read under an anchor. "
+                  "history_mode_independent; history_no_fault (no out-of-bounds access, only OK/EOF/EOL); lines + terminators partition the input; re-read under an anchor (the very end of the input included); "
+                  "readLines_eq_specLines: reading any input line by line on any opener yields exactly specLines src; get_prefix/get_all_in_memory; "
+                  "stable_ptr_valid_quiet: pointers stay valid in the whole-input modes and on an exhausted stream. "
                   "The hand-written model is tied to the working tree by an exact differential run (6 modes x 11 page sizes, histories <= 200 ops, ASan+UBSan) and the implementation is "
                   "monitored against the specification per operation; any difference is a concrete failing (input, mode, page size, history).")
     level_note = ("Partial on one clause: 'pointers handed out under a stable anchor stay valid' is false of the code (buffer_refill reallocates; known finding C05:stable-anchor:realloc-in-refill, "
                   "proved: stable_ptr_valid_partial + stable_ptr_valid_fails_at). Trusted: Lean kernel + propext/Classical.choice/Quot.sound; model fidelity is checked (not proved) by the differential run; "
                   "fread/popen/mmap deliver the bytes; allocation never fails; esl_buffer_Open/Close not modelled. Contract assumed of callers: anchors at/before the cursor, "
-                  "SetOffset to a byte of the input ahead of the cursor or at/after the active anchor, Set within one guaranteed page.")
+                  "SetOffset to a byte of the input (or, while an anchor is set, to its very end) ahead of the cursor or at/after the active anchor, Set within one guaranteed page. "
+                  "SetOffset to the very end WITHOUT an anchor is mode dependent (eslEINVAL in the fseeko branch of FILE mode only) and stays outside the contract.")
     diverge_is_violation = True    # on valid histories the model is proved equal to the specification (history_spec)
     quick_budget_s = 60
     technique = ("Lean 4 proof (window invariant + refinement of the hand-written model of esl_buffer.c to the abstract 'bytes + cursor' specification) "
@@ -145,7 +164,7 @@ class C05(Prop):
                     "Lean compiler/runtime for the executable driver", "gcc, glibc fread/fmemopen/popen/mmap deliver the bytes",
                     "python copy of the abstract specification (props/c05.py: Spec) used by the monitor"]
     assumptions = ["fread(k) returns min(k, remaining) bytes and sets the EOF flag on a short count; no I/O errors; allocation never fails (eslEMEM/eslESYS paths not modelled)",
-                   "contract of the positioning calls: anchors are set at or before the cursor and at/after the active anchor; SetOffset targets are < input length and either ahead of the cursor or at/after the active anchor",
+                   "contract of the positioning calls: anchors are set at or before the cursor and at/after the active anchor; SetOffset targets are < input length (<= while an anchor is set) and either ahead of the cursor or at/after the active anchor; Set(p, k) stays within one guaranteed page of the cursor (how much more is loaded is mode dependent by design)",
                    "esl_buffer_Open (environment search, .gz detection) and esl_buffer_Close are not modelled; mmap/popen/gzip are OS behaviour, modelled as 'delivers the bytes'"]
     rule = ("case = one opening (mode, page size, input bytes) + a history of <= 200 operations valid under the API contract, generated by simulating the abstract specification; "
             "the same (input, history) is run under 3 configurations; non-trivial = at least one operation returned bytes; distinct by implementation output trace")
@@ -214,9 +233,9 @@ class C05(Prop):
             else: pick = rng.choice(["line", "token", "read", "raw", "pos", "misc"])
             if pick == "token" and not tokens: pick = "line"
             if pick == "misc": pick = rng.choice(["line", "token" if tokens else "line", "read", "raw", "pos", "off"])
-            if pick == "line": cand = rng.choice(["getline", "getline", "fetchline", "fetchlinestr"])
+            if pick == "line": cand = rng.choice(["getline", "getline", "fetchline", "fetchlinestr"]) + ("0" if rng.random() < 0.12 else "")
             elif pick == "token":
-                cand = rng.choice(["gettoken", "gettoken", "fetchtoken", "fetchtokenstr"]) + " sep=" + hx(rng.choice(self.SEPS))
+                cand = rng.choice(["gettoken", "gettoken", "fetchtoken", "fetchtokenstr"]) + ("0" if rng.random() < 0.12 else "") + " sep=" + hx(rng.choice(self.SEPS))
             elif pick == "read":
                 rem = len(src) - sp.cur
                 k = rng.choice([0, 1, 1, 2, 3, 4, 8, rng.randrange(0, 20), rem, rem + 1, max(0, rem - 1), rng.randrange(0, rem + 2)])
@@ -239,9 +258,9 @@ class C05(Prop):
                 elif q < 0.55 and myanch:
                     o = myanch.pop(rng.randrange(len(myanch)) if rng.random() < 0.3 else -1)
                     cand = "raise o=%d" % o
-                elif q < 0.9 and len(src) > 0:
+                elif q < 0.9:
                     lo = sp.anchor if sp.anchor is not None else sp.cur
-                    hi = len(src) - 1
+                    hi = len(src) - 1 if sp.anchor is None else len(src)
                     if lo <= hi:
                         o = rng.choice([lo, sp.cur, hi, rng.randrange(lo, hi + 1), rng.randrange(lo, min(hi, sp.cur + 40) + 1)])
                         if sp.setoffset_ok(o): cand = "setoffset o=%d" % o
@@ -254,14 +273,15 @@ class C05(Prop):
     def configs(self, rng, src, k, minps=1):
         out = []
         for _ in range(k):
-            m = rng.choice(MODES) if rng.random() < 0.9 else rng.choice(NATURAL)
+            m = rng.choice(MODES) if rng.random() < 0.85 else rng.choice(NATURAL + VARIANTS)
             if m == "mmap" and len(src) == 0: m = "allfile"
-            ps = rng.choice([p for p in PAGES if p >= minps])
+            if m == "cstring" and 0 in src: m = "string"
+            ps = rng.choice([p for p in PAGES if p >= minps]) if rng.random() < 0.95 else 0     # 0 = no override: the library's default page size
             out.append((m, ps))
         return out
 
-    def mk(self, name, src, m, ps, ops, **kw):
-        return dict(name=name, ops=["open mode=%s ps=%d hex=%s" % (m, ps, hx(src))] + ops, sticky=1, mode=m, ps=ps, **kw)
+    def mk(self, name, src, m, ps, ops, rep=1, **kw):
+        return dict(name=name, ops=["open mode=%s ps=%d hex=%s%s" % (m, ps, hx(src), " rep=%d" % rep if rep != 1 else "")] + ops, sticky=1, mode=m, ps=ps, **kw)
 
     def corpus(self, ctx):
         """regression inputs of the three defects repaired in esl_buffer.c (cafe6fe, a12f75c) and the witness of the known finding"""
@@ -273,6 +293,27 @@ class C05(Prop):
                 out.append(self.mk("reg-crlf-after-token.%s.%d" % (m, ps), b"a  \r\nb  \r", m, ps, ["fetchtoken sep=20", "fetchtoken sep=20", "fetchtokenstr sep=20", "gettoken sep=20", "gettoken sep=20"]))
                 out.append(self.mk("reg-read-multipage.%s.%d" % (m, ps), b"0123456789", m, ps, ["read k=7", "read k=4", "read k=3", "read k=1"]))
                 out.append(self.mk("reg-setoffset-end.%s.%d" % (m, ps), b"ab\ncd", m, ps, ["setanchor o=0", "getline", "getline", "setoffset o=3", "getline", "raise o=0"]))
+        # boundary lengths: inputs of 1-3 bytes in every way of opening them, with and without page-size override
+        tiny = [b"a", b"\n", b"\r", b" ", b"a\n", b"\r\n", b"ab", b"a ", b"a\r\n", b"\n\n", b"a\nb"]
+        tops = [["getline", "getline", "get"], ["gettoken sep=20", "gettoken sep=20", "gettoken sep=20"], ["read k=1", "read k=1", "read k=1", "read k=1"],
+                ["get", "set k=1", "get", "getoffset"], ["fetchlinestr", "fetchtokenstr sep=20", "fetchline"],
+                ["setanchor o=0", "fetchline", "setoffset o=0", "fetchtoken sep=20", "raise o=0", "getline"]]
+        for t in tiny:
+            for m in MODES + NATURAL + VARIANTS:
+                if m == "cstring" and 0 in t: continue
+                for ps in (1, 2, 0):
+                    for k, o in enumerate(tops):
+                        out.append(self.mk("tiny-%s.%s.%d.%d" % (t.hex(), m, ps, k), t, m, ps, o))
+        # a file larger than eslBUFFER_SLURPSIZE through the natural paths: esl_buffer_OpenFile/Open choose mmap by themselves
+        unit = b"seq%04d  ACGTACGTACGTACGTACGTACGTACGTACGTACGTACGTACGTACGT \r\n" % 7
+        rep = 4194304 // len(unit) + 400
+        L = len(unit) * rep
+        bigops = ["getline", "gettoken sep=20", "gettoken sep=20", "gettoken sep=20", "setoffset o=%d" % (L - 3 * len(unit) + 5), "getline", "read k=100", "getoffset",
+                  "fetchline", "fetchline", "getline", "get"]
+        for m in NATURAL:
+            out.append(self.mk("big-natural-mmap." + m, unit, m, 0, bigops, rep=rep))
+        for kind in ("file", "open", "pipe", "cmd"):
+            out.append(dict(self.mk("openfail-" + kind, b"abc\n", "allfile", 4, ["openfail kind=" + kind, "getline"]), nomonitor=True))
         out.append(dict(self.mk("known-stable-realloc", b"abcd", "stream", 2, ["setstable o=0", "getline"]), known_key=K_STABLE))
         return out
 
@@ -308,7 +349,7 @@ class C05(Prop):
             else:
                 src = self.gen_input(rng, big)
                 cfgs = self.configs(rng, src, k, minps=64 if big else 1)
-            minps = min(ps for _, ps in cfgs)
+            minps = min((ps if ps > 0 else 512) for _, ps in cfgs)
             nops = rng.choice([5, 20, 60, 200]) if not big else 200
             ops = self.gen_history(rng, src, minps, nops, tokens=True, readmax=None, stable=(rng.random() < 0.15))
             self.stats["inputs"] += 1
@@ -338,6 +379,7 @@ class C05(Prop):
         what the python oracle `Spec` prescribes, and every generated op is inside the Lean contract `Valid ps`"""
         ops = case["ops"]
         n = max(len(impl_out), len(model_out))
+        src0 = case_cfg(ops[0])[0]
         for i in range(n):
             a = self.canonical(impl_out[i]) if i < len(impl_out) else "<missing>"
             b = self.canonical(model_out[i]) if i < len(model_out) else "<missing>"
@@ -345,8 +387,7 @@ class C05(Prop):
                 continue      # how much Get exposes is window policy, not the property (the monitor checks prefix + page guarantee)
             if a != b: return (i, a, b)
         if case.get("nomonitor"): return None
-        kv = dict(x.split("=", 1) for x in ops[0].split()[1:] if "=" in x)
-        sp = Spec(bytes.fromhex(kv["hex"]) if kv["hex"] != "-" else b"")
+        sp = Spec(src0)
         for i, (op, l) in enumerate(zip(ops[1:], model_out[1:]), 1):
             exp = sp.apply(op)
             f = dict(x.split("=", 1) for x in l.split() if "=" in x)
@@ -362,11 +403,8 @@ class C05(Prop):
     def monitor(self, ctx, case, out):
         if case.get("nomonitor"): return None
         ops = case["ops"]
-        w = ops[0].split()
-        kv = dict(x.split("=", 1) for x in w[1:] if "=" in x)
-        src = bytes.fromhex(kv["hex"]) if kv["hex"] != "-" else b""
-        ps, mode = int(kv["ps"]), kv["mode"]
-        streaming = mode in ("stream", "file") or (mode == "pipe" and len(src) >= ps)
+        src, ps_eff, ps, mode = case_cfg(ops[0])
+        streaming = mode in ("stream", "file") or (mode in ("pipe", "pipe0") and len(src) >= ps_eff)
         if not out or not out[0].startswith("ok"):
             return Failure("monitor", "open of %d bytes in mode %s failed: %r" % (len(src), mode, out[:1]))
         sp = Spec(src)
@@ -387,6 +425,9 @@ class C05(Prop):
                 kf = kf or Failure("monitor", where + ": window reallocated while a stable anchor is in force", key=K_STABLE)
             if got["st"] != exp["st"]:
                 return Failure("monitor", where + ": status %s, specification says %s" % (got["st"], exp["st"]))
+            wanta = ("%d/%d" % (sp.anchor, sp.nanch)) if (streaming and sp.anchor is not None) else "-"
+            if "a" in got and got["a"] != wanta:
+                return Failure("monitor", where + ": anchor record %s afterwards, specification says %s (an anchor that is not released keeps the stream in memory)" % (got["a"], wanta))
             if int(got.get("off", -1)) != exp["off"]:
                 return Failure("monitor", where + ": offset %s afterwards, specification says %d" % (got.get("off"), exp["off"]))
             if exp.get("get"):
